@@ -270,6 +270,73 @@ def check_visible(report):
              "nested and referenced resources", "nested field types and resource references must be followed")
 
 
+def check_aggregation(report):
+    """C19.5: a resource declared in ANY loaded file (dependency files included) can be referenced from the API, so API.build must
+    aggregate `proto.resource_messages` over every pre-loaded proto without a filter and hand that aggregate to the second pass."""
+    r5 = report.rule("C19.5", "API.build aggregates resource_messages of every loaded proto (unfiltered) and passes the aggregate to every "
+                              "second-pass Proto.build as all_resources", floor=3)
+    m = pm()
+    from .common_rules import stmt_guards
+    bd = m.func("gapic.schema.api.API.build")
+    p = bd.module.path
+    # 1. every file descriptor is pre-loaded: pre_protos[...] = Proto.build(...) directly under `for fd in file_descriptors`
+    stores = [(g, st) for g, st in stmt_guards(bd.node) if isinstance(st, ast.Assign) and isinstance(st.targets[0], ast.Subscript)
+              and isinstance(st.value, ast.Call) and ast.unparse(st.value.func) == "Proto.build"]
+    r5.need(len(stores) == 1, "API.build: <pre_protos>[name] = Proto.build(...)", f"{len(stores)} found")
+    g, st = stores[0]
+    pre = ast.unparse(st.targets[0].value)
+    r5.instance("first pass loads every file")
+    conds = [x for x in g if x[0] != "for"]
+    loops = [x for x in g if x[0] == "for"]
+    r5.check(not conds and len(loops) == 1 and loops[0][2] == "file_descriptors", p, st.lineno, f"first pass under {g}",
+             "every file descriptor (dependencies included) must be pre-loaded: resources may be declared in any of them")
+    # 2. the aggregate
+    reads = []
+    par = {}
+    for n in ast.walk(bd.node):
+        for c in ast.iter_child_nodes(n):
+            par[c] = n
+    for n in ast.walk(bd.node):
+        if isinstance(n, ast.Attribute) and n.attr == "resource_messages":
+            reads.append(n)
+    # (the selective-generation branch builds its own aggregate over the finished `protos`; the one that feeds the second pass is the
+    # first in source order, before any Proto.build(..., all_resources=...))
+    second_line = min((n.lineno for n in ast.walk(bd.node) if isinstance(n, ast.Call) and ast.unparse(n.func) == "Proto.build"
+                       and any(k.arg == "all_resources" for k in n.keywords)), default=None)
+    r5.need(second_line is not None, "API.build: Proto.build(..., all_resources=...)")
+    reads = [x for x in reads if x.lineno < second_line]
+    r5.need(len(reads) == 1, "API.build: one read of <proto>.resource_messages before the second pass", f"{len(reads)} found")
+    rd = reads[0]
+    owner = ast.unparse(rd.value)
+    comp = par.get(rd)
+    r5.instance("aggregate over every proto")
+    if isinstance(comp, (ast.GeneratorExp, ast.ListComp)) and comp.elt is rd:
+        gens = comp.generators
+        ok = len(gens) == 1 and not gens[0].ifs and ast.unparse(gens[0].target) == owner and ast.unparse(gens[0].iter) == f"{pre}.values()"
+        r5.check(ok, p, rd.lineno, f"{ast.unparse(comp)[:110]}",
+                 f"the aggregate must range over {pre}.values() without a filter: a resource declared in a dependency file (file_to_generate "
+                 f"false) would otherwise be invisible and its <name>_path / parse_<name>_path helpers silently missing")
+    else:
+        hit = [(g2, s2) for g2, s2 in stmt_guards(bd.node) if any(x is rd for x in ast.walk(s2))]
+        r5.need(len(hit) == 1, "API.build: statement reading resource_messages")
+        g2, s2 = hit[0]
+        loops2 = [x for x in g2 if x[0] == "for"]
+        conds2 = [x for x in g2 if x[0] != "for"]
+        r5.need(len(loops2) == 1 and loops2[0][1] == owner, "API.build: resource_messages read in a loop over the protos", str(g2))
+        r5.check(not conds2 and loops2[0][2] == f"{pre}.values()", p, rd.lineno, f"{ast.unparse(s2)[:80]} under {g2}",
+                 f"the aggregate must take resource_messages of every proto in {pre}.values(), unconditionally")
+    # 3. handed to the second pass
+    second = [n for n in ast.walk(bd.node) if isinstance(n, ast.Call) and ast.unparse(n.func) == "Proto.build" and any(k.arg == "all_resources" for k in n.keywords)]
+    r5.instance("second pass receives the aggregate")
+    r5.check(len(second) >= 1, p, bd.node.lineno, "Proto.build(..., all_resources=...)", "the second pass must receive the aggregated resources")
+    for c in second:
+        comp2 = par.get(c)
+        while comp2 is not None and not isinstance(comp2, (ast.DictComp, ast.ListComp, ast.GeneratorExp, ast.For, ast.FunctionDef)):
+            comp2 = par.get(comp2)
+        if isinstance(comp2, (ast.DictComp, ast.ListComp, ast.GeneratorExp)):
+            r5.check(not any(gg.ifs for gg in comp2.generators), p, c.lineno, "second pass comprehension", "every pre-loaded proto is rebuilt in the second pass")
+
+
 def run(report: core.Report):
     report.explanation = ("Construction-agreement rules: the three Python derivations share one regex and one pattern; the parsing regex keeps "
                           "every literal (substitution form) and its group body has the required regex-AST shape; the emitted helper pair "
@@ -279,3 +346,4 @@ def run(report: core.Report):
     lib = Lib()
     check_templates(report, lib)
     check_visible(report)
+    check_aggregation(report)
